@@ -268,34 +268,23 @@ func (v *valueProperty) Value(key interface{}) interface{} {
 // keys have been added, then this won't remove them all, it's the
 // responsibility of key/value adding code to strip out existing identical keys
 // first.
+//
+// The links of a chain are never modified once made: copies of a Cell (or of
+// any other property holder) share them.  Removing a key from below the top
+// of the chain makes new links for those above it.
 func stripReturnValue(ps propertySet, key interface{}) (interface{}, propertySet) {
 	top, ok := ps.(*valueProperty)
 	if !ok {
+		// we stop at the first non-valueProperty, if those are intermingled
 		return nil, ps
 	}
 	if top.key == key {
 		return top.val, top.chain
 	}
-	if top.chain == nil || top.chain == noProperty {
+	val, remainder := stripReturnValue(top.chain, key)
+	if val == nil {
+		// not found further down, nothing to remove
 		return nil, ps
 	}
-	return stripChainReturnValue(top, top, top.chain, key)
-}
-
-func stripChainReturnValue(top, parent *valueProperty, this_ propertySet, key interface{}) (interface{}, propertySet) {
-	this, ok := this_.(*valueProperty)
-	if !ok {
-		// we break the chain if non-valueProperty are intermingled
-		return nil, top
-	}
-	if this.key == key {
-		// caller ensures that this != top/parent
-		parent.chain = this.chain
-		this.chain = nil
-		return this.val, top
-	}
-	if this.chain == nil || this.chain == noProperty {
-		return nil, top
-	}
-	return stripChainReturnValue(top, this, this.chain, key)
+	return val, &valueProperty{remainder, top.key, top.val}
 }
